@@ -48,8 +48,8 @@ CHECKS = {
         text='Theorems detect_spec/detect_error_iff, resolve_spec/resolve_flags/resolve_table, columns_general/columns_exact/columns_default, rows_spec, read_spec hold for every file '
              'description, every load list and all deprecated flag values on a Lean model of read_asdf/_resolve_columns as coded. Tied to /repo on every run by an exhaustive run over file type x '
              'all subsets of loadable columns x load_pos/load_vel in {None,True,False}^2 x dtype x header style plus all 16 key-presence patterns x explicit colnames; an oracle checks exact '
-             'column set, one row per particle, meta == header and bit-identity with direct calls of the C04/C15-verified decoders (which is what shows values do not depend on co-requests).',
-        note='Trusted: Lean kernel, harness, partfiles.py, asdf (validate_on_read off), astropy Table; column VALUES are not in the Lean model (delegated to C04/C15 theorems + the bitwise oracle).',
+             'column set, one row per particle, meta == header and bit-identity with direct calls of the C04/C15-verified decoders (which is what shows values do not depend on co-requests). Extended: column VALUES are now in the Lean model — read_asdf calls the C04/C15 model decoders as the real code calls the real ones — with values_are_direct_decoding, values_independent_of_selection, read_values_independent, aux_passthrough, subsample_rule, values_shape; the correspondence compares those values with the real table on every single-column-file call.',
+        note='Trusted: Lean kernel, harness, partfiles.py, asdf (validate_on_read off), astropy Table; values go through the C04/C15 model decoders (floats compared under their bounds).',
         design='§7 C16'),
     'C12': dict(
         technique='Lean 4 proof over named parallel arrays (stable argsort is a permutation; gathering every column by one index list equals a record-wise permutation; searchsorted spec) + an ast translator regenerating the returned/permuted/allocated/filled array tables of AbacusHOD.staging + differential run and id-decoding oracle of the real AbacusHOD on synthetic subsample file sets',
@@ -77,7 +77,7 @@ CHECKS = {
              'deposit_superposition, additive(_seq), perm_invariant, axis_roll_equivariant / roll_equivariant (whole-cell shifts with periodic wrap roll the grid, ties included), wrap_inplace_spec, scatter_no_fault. '
              'They hold for every particle list, every g >= 1 per axis and any offset. The model is tied to /repo on every run by running _tsc_scatter (compiled and py_func), tsc_parallel(nthread=1), cic_serial and get_field '
              'on dyadic lattices (all cell centres, half-cell edges, 0, Box, one box outside with wrap, offsets 0 and half a cell, weights, supplied grids, f32/f64, cubic/anisotropic/(g,g,1) shapes 2..9) where float arithmetic is exact and '
-             'model and implementation must agree bit for bit, plus a tolerance stream and a directed float-overshoot stream; an independent Fractions evaluation of the documented kernel and the conservation/additivity/permutation/roll relations decide violations.',
+             'model and implementation must agree bit for bit, plus a tolerance stream and a directed float-overshoot stream; an independent Fractions evaluation of the documented kernel and the conservation/additivity/permutation/roll relations decide violations. Extended: roll_equivariant_list/_grid/_zero (whole particle lists, supplied grids), a model of power_spectrum.get_field end to end with get_field_spec / _total_unit / _additive / _roll, and forward-error theorems over Q (coord_forward_error, axis_weights_forward_error, cic_axis_weights_forward_error, term_forward_error, sum_forward_error) from which the tolerance of the generic-float stream is now computed instead of chosen by hand.',
         note='Trusted: Lean kernel (+3 std axioms), the harness; float rounding on non-dyadic inputs is bounded (64 eps of the deposited mass), not modelled; int16/int32 index widths out of scope; numba codegen.',
         design='§7 C06'),
     'C07': dict(
@@ -86,7 +86,7 @@ CHECKS = {
              'accepted_is_safe (whatever the default choice/validation of tsc_parallel returns satisfies np = 1 or nthread <= 1 or np = 2 or (2 | np and 3 np <= g)), starts_index_inbounds (both loops of _tsc_parallel, odd np too), '
              'Conc.disjoint_footprints_interleave / rmw_interleave (threads as load/store step lists: pairwise disjoint footprints imply EVERY schedule leaves the sequential result) with lost_update_witness, parallel_eq_serial(_stripe_order), narrow_stripe_races. '
              'Tie to /repo on every run: all (n1d <= 64, nthread <= 24, npartition in {None,0,-1} u 1..n1d+1) decisions of the real tsc_parallel vs the model (exhaustive), rows written by _tsc_scatter.py_func on a recording grid vs rowsOf, '
-             'starts indices read by _tsc_parallel.py_func, 260 whole tsc_parallel runs (nthread 2..16, coord, sort, offsets, odd np with one thread) bit-identical to the single-thread grid on dyadic inputs, and a model-free oracle that computes the row set of every stripe of every accepted configuration from the real partition + kernel: two equal-parity stripes sharing a row is the failing input. The source-level premise of the schedule theorems — every store inside a numba.prange loop of the anchored kernels goes to memory owned by the executing iteration/thread — is re-extracted from /repo with ast on every run (harness/extract/prange.py -> Generated/PrangeC07.lean) and decided by prange_writes_private, so an edit that makes two iterations write the same cell breaks a proof deterministically instead of waiting for a lost update to show up.',
+             'starts indices read by _tsc_parallel.py_func, 260 whole tsc_parallel runs (nthread 2..16, coord, sort, offsets, odd np with one thread) bit-identical to the single-thread grid on dyadic inputs, and a model-free oracle that computes the row set of every stripe of every accepted configuration from the real partition + kernel: two equal-parity stripes sharing a row is the failing input. The source-level premise of the schedule theorems — every store inside a numba.prange loop of the anchored kernels goes to memory owned by the executing iteration/thread — is re-extracted from /repo with ast on every run (harness/extract/prange.py -> Generated/PrangeC07.lean) and decided by prange_writes_private, so an edit that makes two iterations write the same cell breaks a proof deterministically instead of waiting for a lost update to show up. Extended: Props/C07Link.lean proves tsc_parallel_eq_serial about the real pipeline: the C17 partition model feeds the two loops, each job runs the C06 kernel model (bridge lemma writes_rows_subset), and for every schedule of both loops the final grid equals the C06 serial scatter of the ORIGINAL particle list; plus a deterministic recorder oracle demanding that the iterations of one prange loop of _tsc_parallel write pairwise disjoint rows, and the stripe-count decision on anisotropic grids along coord 1, 2.',
         note='PARTIAL: the interleaving model is sequentially consistent per array cell and quantifies over arbitrary schedules (over-approximating numba prange); the CPU memory model, the scheduler and one-ulp float stripe keys are trusted. parallel_eq_serial takes stripe contents as a function, linked to C17 by statement.',
         design='§7 C07'),
     'C09': dict(
@@ -100,14 +100,14 @@ CHECKS = {
         technique='Lean 4 proofs (structural induction over the thread-block boundary list; fill-pass write list = enumeration of the filter; permutation lemma for writes to distinct cells) + differential and independent-oracle runs of gen_gal_cat across 1..16 threads, exhaustive fast_concatenate, rint(linspace) block sweep',
         text='twoPass_run, fill_is_filter (for every T >= 1, EVERY monotone block sequence incl. T > H and H = 0, and each class: write indices are exactly 0..N_c-1 each once and the array is the row-ordered filter), thread_count_independent, count_fill_agree, blocks_partition, '
              'applyWrites_perm / schedule_independent (distinct cells: every order of the writes gives the same arrays), fastConcat_spec / _branches / _schedule_independent, searchsorted_pointwise, rint_linspace_blocks. Tied to /repo each run: gen_gal_cat(Nthread = 1..16) on host tables 0..40 and particle tables 0..200, '
-             'all 7 tracer subsets: every column, row order and Ncent bitwise identical to one thread, an independent row-by-row oracle, the model-predicted row placement; fast_concatenate exhaustive over N1, N2 <= 12, T <= 16; the real rint(linspace) boundaries for all H <= 300, T <= 64 checked to be a monotone 0..H block sequence (the premise of the theorems). The source-level premise of the schedule theorems — every store inside a numba.prange loop of the anchored kernels goes to memory owned by the executing iteration/thread — is re-extracted from /repo with ast on every run (harness/extract/prange.py -> Generated/PrangeC10.lean) and decided by prange_writes_private, so an edit that makes two iterations write the same cell breaks a proof deterministically instead of waiting for a lost update to show up.',
+             'all 7 tracer subsets: every column, row order and Ncent bitwise identical to one thread, an independent row-by-row oracle, the model-predicted row placement; fast_concatenate exhaustive over N1, N2 <= 12, T <= 16; the real rint(linspace) boundaries for all H <= 300, T <= 64 checked to be a monotone 0..H block sequence (the premise of the theorems). The source-level premise of the schedule theorems — every store inside a numba.prange loop of the anchored kernels goes to memory owned by the executing iteration/thread — is re-extracted from /repo with ast on every run (harness/extract/prange.py -> Generated/PrangeC10.lean) and decided by prange_writes_private, so an edit that makes two iterations write the same cell breaks a proof deterministically instead of waiting for a lost update to show up. Extended: searchsorted_spec (binary search = left insertion point on sorted tables; the found element equals the key when present), schedule_independent_all (cells of the whole fill pass, tagged by tracer, pairwise distinct), and interleaving-level theorems on atomic load/store steps (fill_interleave, count_interleave with its non-atomic +=, fastConcat_interleave): every complete schedule leaves the sequential arrays.',
         note='PARTIAL: memory model and numba scheduler trusted (over-approximated by any order of writes to distinct cells); keep codes are inputs (C09); sizes below 2^40 for the float floor in the thread split; the real code runs in a child process because a broken fill pass corrupts the heap.',
         design='§7 C10'),
     'C14': dict(
         technique='Lean 4 proof (invariant relating parser state, unread input and payloads still owed, by induction over the loop fuel and over the chunks) + correspondence of the compiled model driver with BloscCompressor.decompress/.compress on all chunkings of short streams, random large streams, compress round trips and asdf end-to-end reads',
         text='feed_invariant, decompress_chunking_independent (every well-formed stream, EVERY chunking incl. empty and 1-byte chunks: the frames handed to the codec are exactly the payloads in order and the parser ends idle), decompress_same_for_all_chunkings, bytesOut_sum, '
              'compress_decompress_id (any data, itemsize >= 1, block size >= itemsize, any codec with dec.enc = id and non-empty frames, every chunking), compress_zero_step, truncated_stream_detected, on a branch-by-branch model of the while-loop. Tied to /repo every run by diffing frames, lengths, per-chunk progress, write addresses and output '
-             'for all 2^(n-1) chunkings of 9 short stream profiles (~49 000 stream/chunking pairs quick), random streams of 1-40 frames with cuts forced inside every prefix byte, 491 compress cases, and asdf.open(...)[...][:] on blsc files.',
+             'for all 2^(n-1) chunkings of 9 short stream profiles (~49 000 stream/chunking pairs quick), random streams of 1-40 frames with cuts forced inside every prefix byte, 491 compress cases, and asdf.open(...)[...][:] on blsc files. Extended: pos_dead (the left-over _pos never influences behaviour), malformed input (zero_payload_handed_over/_skipped, truncated_inside_frame, trailing_garbage_ignored), a linear-time model proved equal to the simple one (decompressF_eq) so long payloads are compared at 1-byte chunks, and the compress keyword handling (compressK_spec, compressK_shuffle_error).',
         note='Trusted: the codec (a parameter; the blosc stand-in or a toy codec patched into it), the harness; _pos is dead state (final state is stated up to it).',
         design='§7 C14'),
     'C17': dict(
@@ -120,7 +120,7 @@ CHECKS = {
     'C20': dict(
         technique='Lean 4 proof (validation precedes output; the client parse inverts emit, by induction over fields and files) + byte-for-byte correspondence of unpack_to_pipe and the pipe_asdf CLI with the model on synthetic uncompressed and blsc ASDF files',
         text='emit_error_writes_nothing, emit_validation_complete (whenever tty / missing file / missing field is reported, zero bytes were written), parse_emit (for every valid request the client recovers, per field in request order, count, width and the per-file raw bytes concatenated in file order, payload length = count x width), '
-             'parse_unambiguous. Tied to /repo each run by ~130 cases (1-4 files, 1-4 fields incl. repeated, 1-D and (N,3)/(N,5) columns, widths 1-8, empty columns, blsc and uncompressed, missing file/field in the k-th position, tty pipe) compared byte for byte, plus the CLI in a subprocess; oracle = struct.pack + tobytes.',
+             'parse_unambiguous. Tied to /repo each run by ~130 cases (1-4 files, 1-4 fields incl. repeated, 1-D and (N,3)/(N,5) columns, widths 1-8, empty columns, blsc and uncompressed, missing file/field in the k-th position, tty pipe) compared byte for byte, plus the CLI in a subprocess; oracle = struct.pack + tobytes. Extended: the CLI main is modelled (parseArgv, cli_run, cli_error_writes_nothing, parseArgv_canonical) and 6 CLI subprocess cases run per quick check; 0-d columns and the empty file list (outside the quantifier) are modelled faithfully (emit_zero_dim, emit_no_files) and compared model-vs-code.',
         note='Trusted: asdf, the blosc stand-in, a little-endian host; one item width per field assumed; 0-d columns and an empty file list are outside the quantifier (modelled, not generated).',
         design='§7 C20'),
     'C01': dict(
@@ -128,14 +128,14 @@ CHECKS = {
         text='Under the decidable well-formedness wf (ranges of kept, not-cleaned-away halos inside their particle file, merge ranges inside the cleaning file; shown satisfiable): load_spec, slices_correct (for every row and loaded subsample the slice npstart:npstart+npout is exactly '
              'that halo original particles — none if cleaned away — followed by its merged particles), tiling (contiguous, A before B, lengths sum to the table, every cell written exactly once), decode_commutes, lc_slices, zipper_inbounds, on a model that mirrors the reader stage by stage '
              '(per-file compaction, N_halo_per_file, zeroing of cleaned-away counts, cumsum offsets carried from A into B, per-halo zipper with numba clipped-slice semantics, replacement of the index columns). Tied to /repo on every run by ~107 real loads over catgen trees '
-             '(1-4 superslabs, 0-6 halos incl. empty slabs, cleaned on/off, A/B/both, pos/vel/pid/rvint/packedpid subsets, unpack_bits, passthrough, dir / halo_info / file / list paths, filters, light cones, truncated files), table compared word for word; an oracle slices the returned table by the returned npstart/npout and compares with the particles catgen wrote.',
+             '(1-4 superslabs, 0-6 halos incl. empty slabs, cleaned on/off, A/B/both, pos/vel/pid/rvint/packedpid subsets, unpack_bits, passthrough, dir / halo_info / file / list paths, filters, light cones, truncated files), table compared word for word; an oracle slices the returned table by the returned npstart/npout and compares with the particles catgen wrote. Extended: wfE is an explicit predicate on the input (wf_iff), every offset read goes through the index rule (zipper_index_rule), the preallocated halo table and its compaction are modelled as write lists (table_compaction), and the uint32 wrap of npout + npout_merge is an explicit hypothesis shown necessary (uint32_sum_wraps).',
         note='Trusted: catgen arrays as the raw records, asdf/astropy, bitpacked decoders (C04) for unpacked columns, numba slice semantics as modelled; NUMBA_BOUNDSCHECK=1. uint32 overflow of npout + merge out of scope.',
         design='§7 C01'),
     'C03': dict(
         technique='Lean 4 proofs over the C01 model (load_append, load_filter via closed forms; decision model of _setup_file_paths) + metamorphic real-vs-real glue/mask oracle + model correspondence + path-decision correspondence',
         text='load_append (loading s1 ++ s2 = gluing the two loads: rows concatenated, particle slices re-based by the A and B totals), load_filter (a filtered load = applying the mask to the unfiltered load and re-indexing contiguously), load_filter_none, load_filter_nothing '
              '(all-false masks: empty tables — the cumsum N = 0 path), filter_sees_N (cleaned, non-passthrough: the filter sees the cleaned count as N), paths_spec / paths_mixed_first (duplicates and foreign files rejected, superslab index from the file name). '
-             'Tied to /repo each run by ~99 real loads (subsets and orders of files vs per-file loads glued by the harness; masks all/nothing/random/parity/N-threshold drawn per superslab, recording which N the filter saw; light cones with filters) and 150 _setup_file_paths calls; every combined load also goes through the C01 truth oracle and model.',
+             'Tied to /repo each run by ~99 real loads (subsets and orders of files vs per-file loads glued by the harness; masks all/nothing/random/parity/N-threshold drawn per superslab, recording which N the filter saw; light cones with filters) and 150 _setup_file_paths calls; every combined load also goes through the C01 truth oracle and model. Extended: the Lean glue and applyMask are driven from the harness on every run and compared with the real combined / filtered loads (closed forms specRes_append, specRes_masked).',
         note='Trusted as C01; the Lean glue/applyMask definitions are tied to the code only through the theorems and the shared load (the harness has its own Python glue/mask as oracle); int() modelled for decimal tokens.',
         design='§7 C03'),
     'C08': dict(
@@ -150,16 +150,16 @@ CHECKS = {
         text='dft_shift, dft_const, fourierField_translate, power_ / cross_power_ / table_translation_invariant, power_perm_invariant, cross_eq_auto, nmode_particle_free, thread_independent, codedPhase_unit, codedW_pos and calc_power_symmetries hold for every mesh, '
              'particle list, whole-cell shift, phase, real window, binning and thread assignment; the deposit hypotheses (additive, roll-equivariant) are discharged from the C06 theorems in Props/C13Link.lean (calc_power_symmetries_c06: TSC and CIC, offsets 0 and half a cell). '
              'Tied to /repo on every run: normalisations exactly, rfftn vs a naive DFT (1e-12), get_field_fft for meshes 2..6 x TSC/CIC x interlaced x compensated x weights x threads (5e-5 of max|F|, observed 1e-6), get_W_compensated, get_raw_power; and the metamorphic relations on the real calc_power '
-             '(permutation, whole-cell translation with wrap on dyadic lattices, nthread in {1,2,5,16}, pos2 = pos, particle-independence of N_mode / k / mu columns and table shape) over nmesh 4..16 incl. odd x TSC/CIC x compensated x interlaced x binnings x poles x weights. The source-level premise of the schedule theorems — every store inside a numba.prange loop of the anchored kernels goes to memory owned by the executing iteration/thread — is re-extracted from /repo with ast on every run (harness/extract/prange.py -> Generated/PrangeC13.lean) and decided by prange_writes_private, so an edit that makes two iterations write the same cell breaks a proof deterministically instead of waiting for a lost update to show up.',
+             '(permutation, whole-cell translation with wrap on dyadic lattices, nthread in {1,2,5,16}, pos2 = pos, particle-independence of N_mode / k / mu columns and table shape) over nmesh 4..16 incl. odd x TSC/CIC x compensated x interlaced x binnings x poles x weights. The source-level premise of the schedule theorems — every store inside a numba.prange loop of the anchored kernels goes to memory owned by the executing iteration/thread — is re-extracted from /repo with ast on every run (harness/extract/prange.py -> Generated/PrangeC13.lean) and decided by prange_writes_private, so an edit that makes two iterations write the same cell breaks a proof deterministically instead of waiting for a lost update to show up. Extended: Props/C13LinkC08.lean instantiates the abstract binning with the C08 model (c08Binning, binKmuR_eq_binning): nmode_particle_free_c08, table_translation_invariant_c08, calc_power_symmetries_c08, thread_independent_c08, dft3_conj_symm (DFT of a real grid is Hermitian), c08_wsum_full_mesh; Props/C13LinkAll.lean combines the C06 deposit and the C08 binning with no hypothesis left (calc_power_symmetries_c06_c08).',
         note='PARTIAL: exact-arithmetic model over the complex numbers; IEEE rounding, numba fastmath and scipy rfftn are assumed and compared under stated bounds (5e-5 of the column scale for calc_power outputs, observed <= 1e-6). The binning is an abstract weighted mean (the interface C08 instantiates); thread independence of the deposit is C07.',
         design='§7 C13'),
     'C02': dict(
         technique='Lean 4 proofs on a statement-level model of _setup_fields, _read_halo_info, _get_halo_fields_dependencies and _load_halo_field, generic over loader/dtype tables regenerated from /repo (dependency order, loading-loop invariant, request-free denotation) + bit-exact differential loads of the real class with model-predicted dependency info and value terms',
         text='deps_order, deps_ok, column_independent (for any request, order, cleaned flag, subsample selection, light cone or not, every returned column value is Denotes c — the loader applied to its dependencies direct evaluations, each cast to its own declared dtype — which mentions no request), '
              'column_independent_pair, setupFields_index_cols, generated_wf/generated_wf2 (the regenerated tables pass the decidable well-formedness the theorems need), and no_request_dependent_failure_partial: once allocation has succeeded, dependency capture, temporary creation and the whole loading loop cannot fail for any combination of columns. '
-             'PARTIAL: that allocation after the list surgery of _setup_fields and the final rename succeed is not proved, only exercised (model and real class must accept/reject the same requests). Tied to /repo each run by ~300 real loads: every valid column alone vs random co-requests in random order vs all vs defaults, with and without subsamples, cleaned on/off, light cone: '
-             'dtype, shape and bytes must be identical, no exception for any valid request; the model must predict fields, cleaned_fields, fields_with_deps, extra_fields, raw dependencies, final columns and a value term per column evaluated with the real closures.',
-        note='PARTIAL as stated; non-passthrough path only (passthrough and filter_func are C01/C03); astropy in-place column assignment trusted; the translator (symbolic execution of the loader closures) is validated numerically on every run.',
+             'Tied to /repo each run by ~300 real loads: every valid column alone vs random co-requests in random order vs all vs defaults, with and without subsamples, cleaned on/off, light cone: '
+             'dtype, shape and bytes must be identical, no exception for any valid request; the model must predict fields, cleaned_fields, fields_with_deps, extra_fields, raw dependencies, final columns and a value term per column evaluated with the real closures. Extended: no_request_dependent_failure is now proved IN FULL (the whole construct path setupFields -> allocate -> reshapeMainprog -> deps -> loadAll -> finish returns ok for every request satisfying the decidable guard validRequest — names declared for the catalog kind, cleaning columns and N listed at most once on cleaned catalogs, something left to load — with the data-model files providing the raw columns; the four request classes the guard excludes are exactly those the real class rejects, checked on every run by an accept/reject agreement stream).',
+        note='Non-passthrough path only (passthrough and filter_func are C01/C03); astropy in-place column assignment trusted; the translator (symbolic execution of the loader closures) is validated numerically on every run.',
         design='§7 C02'),
     'C05': dict(
         technique='Lean 4 proofs over a loader table regenerated from /repo by symbolic execution of the real loader closures (degree-checker soundness, kernel-decided unit and ratio tables, Real.sqrt dispersion identity) + translator validated numerically each run + end-to-end correspondence and an independent oracle on synthetic catalogs',
